@@ -517,6 +517,7 @@ def check(prop, tier, seed):
     }
     # evidence describes runs against /repo only; a run against a scratch tree (VERIF_REPO, seeded mutants) must not overwrite it
     evdir = os.path.join(VERIF, 'evidence') if os.path.abspath(REPO) == '/repo' else os.path.join(VERIF, 'replays', 'scratch-evidence')
+    evdir = os.environ.get('VERIF_EVIDENCE_DIR') or evdir      # tools/anchor_coverage.py: instrumented runs never touch evidence/
     os.makedirs(evdir, exist_ok=True)
     with open(os.path.join(evdir, pid + '.json'), 'w') as f:
         json.dump(ev, f, indent=1, default=str)
